@@ -27,6 +27,7 @@ func registerMisc(e *Engine) {
 	I["time.Now"] = func(in *Interp, fn *ssa.Function, a []Value) Value {
 		c := in.ctx
 		t := in.drawInput("time.now", "u64", 64)
+		in.res.NoNative = true
 		// non-decreasing, positive, and far from overflow
 		lo := c.BV(1, 64)
 		if in.lastNow != nil {
@@ -109,6 +110,58 @@ func registerMisc(e *Engine) {
 	I["sort.Slice"] = sortSlice
 	I["sort.SliceStable"] = sortSlice
 
+	I["context.WithValue"] = func(in *Interp, fn *ssa.Function, a []Value) Value {
+		parent := a[0].(IfaceV)
+		if parent.T == nil {
+			in.throwRuntime("cannot create context from nil parent")
+		}
+		if k := a[1].(IfaceV); k.T == nil {
+			in.throwRuntime("nil key")
+		} else if !types.Comparable(k.T) {
+			in.throwRuntime("key is not comparable")
+		}
+		t := in.namedType("context", "valueCtx")
+		l := in.newLoc(t)
+		l.Kids[0].V = parent
+		l.Kids[1].V = a[1]
+		l.Kids[2].V = a[2]
+		return IfaceV{T: types.NewPointer(t), V: l}
+	}
+	// encoding/json: Marshal returns an opaque one-byte blob that carries the
+	// value; Unmarshal of such a blob copies it back when the types agree.
+	I["encoding/json.Marshal"] = func(in *Interp, fn *ssa.Function, a []Value) Value {
+		v := a[0].(IfaceV)
+		blob := in.bytesToSlice([]*smt.Term{in.ctx.BV('?', 8)})
+		blob.Arr.Native = &jsonBlob{val: in.deepCopy(v).(IfaceV)}
+		return TupleV{blob, nilError()}
+	}
+	I["encoding/json.Unmarshal"] = func(in *Interp, fn *ssa.Function, a []Value) Value {
+		b := a[0].(SliceV)
+		dst := a[1].(IfaceV)
+		var jb *jsonBlob
+		if b.Arr != nil {
+			jb, _ = b.Arr.Native.(*jsonBlob)
+		}
+		if jb == nil {
+			panic(unsupported{"json.Unmarshal of bytes not produced by json.Marshal in this run"})
+		}
+		pt, ok := under(dst.T).(*types.Pointer)
+		if !ok {
+			return in.newError("json: Unmarshal(non-pointer)")
+		}
+		if jb.val.T == nil {
+			return nilError()
+		}
+		if !types.Identical(pt.Elem(), jb.val.T) {
+			if _, isI := under(pt.Elem()).(*types.Interface); isI {
+				in.store(dst.V, jb.val)
+				return nilError()
+			}
+			panic(unsupported{fmt.Sprintf("json.Unmarshal into %v of a blob carrying %v", pt.Elem(), jb.val.T)})
+		}
+		in.store(dst.V, in.deepCopy(jb.val).(IfaceV).V)
+		return nilError()
+	}
 	I["os.Getenv"] = func(in *Interp, fn *ssa.Function, a []Value) Value { return StrV{} }
 	I["os.Hostname"] = func(in *Interp, fn *ssa.Function, a []Value) Value {
 		return TupleV{StrV{S: "host"}, nilError()}
@@ -142,4 +195,38 @@ func (in *Interp) errHasErrno(err IfaceV, code int, depth int) bool {
 	}
 	// *PathError etc. expose Err through Unwrap; nothing else to look at
 	return false
+}
+
+type jsonBlob struct{ val IfaceV }
+
+// deepCopy copies slices (fresh backing arrays) so that a marshalled value
+// does not alias the original.
+func (in *Interp) deepCopy(v Value) Value {
+	switch x := v.(type) {
+	case IfaceV:
+		return IfaceV{T: x.T, V: in.deepCopy(x.V)}
+	case SliceV:
+		x = in.conc(x)
+		if x.Arr == nil {
+			return x
+		}
+		out := in.makeSlice(x.Arr.ElemT, x.Len, x.Len)
+		for i := 0; i < x.Len; i++ {
+			in.sliceSet(out, i, in.deepCopy(in.sliceGet(x, i)))
+		}
+		return out
+	case StructV:
+		o := make(StructV, len(x))
+		for i := range x {
+			o[i] = in.deepCopy(x[i])
+		}
+		return o
+	case ArrayV:
+		o := make(ArrayV, len(x))
+		for i := range x {
+			o[i] = in.deepCopy(x[i])
+		}
+		return o
+	}
+	return v
 }
